@@ -324,6 +324,20 @@ std::vector<uint8_t> fileBytesOf(const std::vector<Op> &ops, FileInfo *info, boo
                 if (b[fl.off + k] != nb) { if (corrupted) *corrupted = true; if (metaCorrupted) *metaCorrupted = true; }
                 b[fl.off + k] = nb;
             }
+        } else if (o.code == "dims") {
+            // dims <k> <type or 0> <nd> <d1..dnd>: overwrite the type byte (if non-zero), the dimension count and the bytes behind it of the k-th
+            // parameter record in one go (a multi-byte corruption a single poke cannot produce: products that overflow 16, 32 or 64 bits)
+            std::vector<size_t> recs;
+            for (size_t i = 0; i < fields.size(); ++i) if (fields[i].kind == "rec.ndims") recs.push_back(i);
+            if (recs.empty()) continue;
+            const size_t fi = recs[static_cast<size_t>(absmod(o.arg(0), static_cast<long long>(recs.size())))];
+            const size_t ndOff = fields[fi].off;
+            std::vector<std::pair<size_t, uint8_t>> w;
+            if (o.arg(1) != 0 && ndOff >= 1) w.push_back({ndOff - 1, static_cast<uint8_t>(o.arg(1) & 0xFF)});
+            const long long nd = absmod(o.arg(2), 8);
+            w.push_back({ndOff, static_cast<uint8_t>(nd)});
+            for (long long k = 0; k < nd; ++k) w.push_back({ndOff + 1 + static_cast<size_t>(k), static_cast<uint8_t>(o.arg(3 + static_cast<size_t>(k)) & 0xFF)});
+            for (auto &x : w) if (x.first < b.size() && b[x.first] != x.second) { b[x.first] = x.second; if (corrupted) *corrupted = true; if (metaCorrupted) *metaCorrupted = true; }
         } else if (o.code == "trunc") {
             size_t n = static_cast<size_t>(absmod(o.arg(0), static_cast<long long>(b.size() + 1)));
             if (n < b.size()) { if (corrupted) *corrupted = true; if (metaCorrupted && n < dataOff) *metaCorrupted = true; b.resize(n); }
